@@ -161,6 +161,56 @@ def finding_cases():
             G.Case("finding:section-symbol", p, [("a.o", ex["exSec"])], [[ds]], "ok")]
 
 
+def witness_cases():
+    """the inputs on which the defects repaired by proposed_fixes/C20-*.patch were shown (replayed on every run)"""
+    import random
+    rng = random.Random(20)
+    w = lambda *ws: b"".join(struct.pack("<I", x & 0xffffffff) for x in ws)
+    J = G.JAL
+    p = G.Program("mips32", [("org", 0x1000), ("label", "main"), ("jal", "f"), ("nop",)])
+    text = w(J, 0, 0x03e00008, 0x24020007)
+    good = G.Obj(text=text, syms=[G.Sym("f", 0, 8), G.Sym("g", 8, 8)], rels=[(0, 2, G.R_MIPS_26)])
+    elf = G.write_elf(good)[0]
+    fd = lambda size=8: [[G.ObjDesc([G.Fn("f", 0, size, [J, 0], {0: "g"}), G.Fn("g", 8, 8, [0x03e00008, 0x24020007], {})], None, None, None)]]
+    out = []
+    add = lambda n, prog, files, descs, expect, why: out.append(G.Case("fixed:%d" % n, prog, files, descs, expect, why))
+    # 1 truncated object (section header table cut off)
+    for cut in (60, 100, 200, len(elf) - 41, len(elf) - 1):
+        add(1, p, [("a.o", elf[:cut])], None, "error", "truncated at %d" % cut)
+    # 2 symbol name offset outside .strtab / 3 relocation symbol index >= 2^23
+    b = bytearray(elf); so = elf.find(b"\0f\0g\0")
+    o2 = G.Obj(text=text, syms=[G.Sym("f", 0, 8), G.Sym("g", 8, 8)], rels=[(0, 0x800000, G.R_MIPS_26)])
+    add(3, p, [("a.o", G.write_elf(o2)[0])], None, "any", "r_info = 0x80000004")
+    # 4 function outside the file
+    for val, size in ((0x100000, 8), (0, 0x100000), (0xfffffff8, 8), (8, 0xfffffffc)):
+        o4 = G.Obj(text=text, syms=[G.Sym("f", val, size), G.Sym("g", 8, 8)], rels=[(0, 2, G.R_MIPS_26)])
+        add(4, p, [("a.o", G.write_elf(o4)[0])], None, "error", "f at %#x size %#x" % (val, size))
+    # 5 symbol of another section
+    o5 = G.Obj(text=w(0x03e00008, 0), syms=[G.Sym("g", 0, 8), G.Sym("f", 0, 8, G.STB_GLOBAL, G.STT_OBJECT, ".data")], data=b"DATADATA")
+    add(5, p, [("a.o", G.write_elf(o5)[0])], [[G.ObjDesc([G.Fn("g", 0, 8, [0x03e00008, 0], {})], None, None, None)]], "error", "f is in .data")
+    # 6 size not a multiple of 4: the bytes behind the function are not linked
+    o6 = G.Obj(text=w(0x24020001, 0xa5a5a5a5, 0x03e00008, 0), syms=[G.Sym("f", 0, 6), G.Sym("g", 8, 8)], rels=[])
+    add(6, p, [("a.o", G.write_elf(o6)[0])], [[G.ObjDesc([G.Fn("f", 0, 6, [0x24020001, 0xa5a5a5a5], {}), G.Fn("g", 8, 8, [0x03e00008, 0], {})], None, None, None)]], "ok", "size 6")
+    # 7 no CPU directive
+    add(7, G.Program(None, [("org", 0x1000), ("label", "main"), ("word", "f")]), [("a.o", elf)], fd(), "error", "no CPU directive")
+    # 8 more than 64 KiB of symbol name
+    o8 = G.make_obj(rng, False, ["f", "c" * 70000], [], graph={"f": ["c" * 70000], "c" * 70000: []})
+    add(8, p, [("a.o", o8.elf())], None, "error", "callee name of 70000 characters")
+    # 9 file name without a dot
+    add(9, p, [("noext", elf)], None, "any", "file name without extension")
+    # 10 archive size fields
+    ar = G.write_ar([("a.o", elf)], index_syms={0: ["f", "g"]})[0]
+    pos = ar.find(b"a.o/")
+    for fld in (b"-60", b"9999999999", b"12x", b"437"):
+        bad = ar[:pos + 48] + fld.ljust(10) + ar[pos + 58:]
+        add(10, p, [("lib.a", bad)], None, "error" if fld != b"437" else "any", "member size field %r" % fld)
+    add(10, p, [("lib.a", ar[:pos + 30])], None, "error", "header cut off")
+    # 11 source ends at an address that is not a multiple of 4
+    pe = G.Program("mips32", [("org", 0x1000), ("label", "main"), ("jal", "f"), ("nop",), ("db", 1)])
+    add(11, pe, [("a.o", elf)], fd(), "any", "ends at 0x1009")
+    return out
+
+
 def gen_cases(ctx):
     rng = ctx.rng
     cases = []
@@ -171,6 +221,7 @@ def gen_cases(ctx):
     for _ in range(ctx.scale(3000, 40000)):
         cases.append(G.gen_corrupt_case(rng))
     cases += edge_cases(ctx)
+    cases += witness_cases()
     cases += finding_cases()
     return cases
 
